@@ -41,6 +41,8 @@ def cases(draw, closed_only, allow_verify):
         "via": draw(st.sampled_from(["transfer", "transfer", "push", "fetch"])) if closed_only else "transfer",
         # after the initial deliveries the destination is wiped externally while its index survives
         "wipe": draw(st.sampled_from([False, False, False, True])),
+        # part of the pre-existing destination contents is delivered through a second store handle
+        "other_handle": draw(st.booleans()),
         "dst_state": draw(st.booleans()),
         "src_state": draw(st.sampled_from([False, False, True])),
     }
@@ -140,8 +142,12 @@ def execute(case, ctx, d, monitor_closure=True):  # noqa: C901, PLR0912, PLR0915
         ids = {HashInfo("md5", t["oid"])} | {HashInfo("md5", f) for f in t["files"]}
         transfer(pre_src, dst, ids, shallow=True, **ikw)
     if file_ids:
+        # these arrive through ANOTHER handle on the same store (another process / DVC instance), after
+        # `dst` has possibly done its own first add: per-handle bookkeeping of `dst` must not matter
+        dst_other = ops.make_odb(case["dst_kind"], dst_root, **{k: v for k, v in dkw.items() if k != "state"}) \
+            if case.get("other_handle") else dst
         for idx in case["dst_files"]:
-            transfer(pre_src, dst, {HashInfo("md5", file_ids[idx % len(file_ids)])}, shallow=True, **ikw)
+            transfer(pre_src, dst_other, {HashInfo("md5", file_ids[idx % len(file_ids)])}, shallow=True, **ikw)
     o.wiped = False
     if case.get("wipe") and ref.store_ids(dst_root):
         # external wipe of the destination (remote gc / bucket emptied); a destination index survives
@@ -328,6 +334,8 @@ def classes_of(case, o):
         cl.append("dst-nonempty")
     if case.get("dst_state"):
         cl.append("dst-has-state")
+    if case.get("other_handle") and case["dst_files"]:
+        cl.append("pre-existing-via-second-handle")
     if getattr(o, "via_push", False):
         cl.append("via=index-fetch" if case.get("via") == "fetch" else "via=index-push")
     if getattr(o, "wiped", False):
